@@ -84,7 +84,7 @@ WarmAt(I) == IF IsFast(I.kind) THEN FastLo(I.degree) + 1 ELSE 2
 Snap(I) == [cur |-> I.cur, tgt |-> I.tgt, lastTau |-> I.lastTau, warm |-> I.warm,
             totIn |-> I.totIn, totOut |-> I.totOut, g |-> I.g, chunk |-> I.chunk,
             const |-> I.const, flushed |-> I.flushed, prevEndT |-> I.prevEndT,
-            best |-> I.best]
+            best |-> I.best, supplied |-> I.supplied, padded |-> I.padded]
 
 NewInst(n) ==
   [alive |-> TRUE, kind |-> n.kind, T |-> n.T, ch |-> n.ch,
@@ -95,10 +95,12 @@ NewInst(n) ==
    cur |-> n.orig.t, tgt |-> n.orig.t, prevEndT |-> n.orig.t, const |-> TRUE,
    totIn |-> 0, totOut |-> 0, lastTau |-> <<0, 0>>, warm |-> FALSE, flushed |-> FALSE,
    best |-> <<0, 0>>,          \* largest |output| so far: <<global output index, size>> (impulse runs)
+   supplied |-> 0,             \* frames of real signal consumed
+   padded |-> 0,               \* frames of zero padding consumed after them (partial / flush calls)
    g |-> n.post,
    pre |-> [cur |-> n.orig.t, tgt |-> n.orig.t, lastTau |-> <<0, 0>>, warm |-> FALSE,
             totIn |-> 0, totOut |-> 0, g |-> n.post, chunk |-> n.chunk, const |-> TRUE,
-            flushed |-> FALSE, prevEndT |-> n.orig.t, best |-> <<0, 0>>]]
+            flushed |-> FALSE, prevEndT |-> n.orig.t, best |-> <<0, 0>>, supplied |-> 0, padded |-> 0]]
 
 IsProc(ev) == ev.ev \in {"process", "partial"}
 ProcOk(ev) == IsProc(ev) /\ ev.res = "ok"
@@ -119,6 +121,8 @@ AfterProcess(I, ev) ==
                    ELSE IF ~tracked THEN FALSE
                    ELSE (@ \/ \E k \in 1..n : ev.taus[k][1] >= WarmAt(I)),
           !.flushed = @ \/ ev.ev = "partial" \/ ev.zero_from >= 0,
+          !.supplied = @ + ev.supplied,
+          !.padded = @ + (ev.nin - ev.supplied),
           !.best = IF Len(ev.peak) = 2 /\ ev.peak[2] > @[2]
                    THEN <<I.totOut + ev.peak[1], ev.peak[2]>> ELSE @]
 
@@ -138,7 +142,7 @@ AfterReset(I, ev) ==
   ELSE [I EXCEPT !.pre = Snap(I), !.g = ev.post, !.cur = I.orig.t, !.tgt = I.orig.t,
           !.prevEndT = I.orig.t, !.const = TRUE, !.totIn = 0, !.totOut = 0,
           !.lastTau = <<0, 0>>, !.warm = FALSE, !.flushed = FALSE, !.chunk = I.chunkMax,
-          !.best = <<0, 0>>]
+          !.best = <<0, 0>>, !.supplied = 0, !.padded = 0]
 
 AfterOther(I, ev) == [I EXCEPT !.pre = Snap(I), !.g = ev.post]
 \* a "bad" call whose shape turns out to be acceptable (e.g. output short by 1 when 0 frames are
@@ -170,6 +174,16 @@ C04_Written(I, ev) ==
     /\ ExactOut(I.kind) => ev.nout = ev.pre.out_next
     /\ ~ev.dirty_beyond
     /\ \A c \in 1..Len(ev.hi) : ActiveCh(ev, c) => ev.hi[c] = ev.nout
+
+\* buffers from input_buffer_allocate / output_buffer_allocate are sufficient for the whole life
+\* of the resampler: filled ones have exactly the maximum length, empty ones that capacity
+C04_Allocate(I, ev) ==
+  ev.ev = "alloc" =>
+    /\ ev.in_filled[1] = I.ch /\ ev.out_filled[1] = I.ch /\ ev.in_empty[1] = I.ch /\ ev.out_empty[1] = I.ch
+    /\ ev.in_filled[2] = ev.pre.in_max /\ ev.in_filled[3] = ev.pre.in_max
+    /\ ev.out_filled[2] = ev.pre.out_max /\ ev.out_filled[3] = ev.pre.out_max
+    /\ ev.in_empty[3] = 0 /\ ev.in_empty[4] >= ev.pre.in_max
+    /\ ev.out_empty[3] = 0 /\ ev.out_empty[4] >= ev.pre.out_max
 
 (***************************************************************************)
 (* C06  ratio changes: continuous forward-only time warp                   *)
@@ -270,6 +284,19 @@ C07_FftBlock(I, ev) ==
   (ev.ev = "new" /\ ev.res = "ok" /\ I.kind = "FftFixedInOut") =>
     /\ ev.post.in_next * I.fs_out = ev.post.out_next * I.fs_in
     /\ ev.post.in_next = FftBlockIn(I)
+
+(***************************************************************************)
+(* C16  flushing: once enough zero padding has been pushed through (the    *)
+(* filter length plus the end-of-chunk margin; two blocks for the FFT      *)
+(* types) every frame of the real signal has produced its output           *)
+(***************************************************************************)
+C16_Flush(I, ev) ==
+  (ProcOk(ev) /\ I.const /\ I.pre.const /\ I.padded > 0) =>
+    IF IsFft(I.kind)
+    THEN I.padded >= 2 * FftBlockIn(I) + ev.pre.in_max =>
+           I.totOut * FftA(I) >= I.supplied * FftB(I)
+    ELSE (I.orig.p > 0 /\ I.padded >= I.L + 4 + CeilDiv(I.orig.q, I.orig.p) + ev.pre.in_max) =>
+           I.totOut * I.orig.q + I.orig.p + I.orig.q >= I.supplied * I.orig.p
 
 (***************************************************************************)
 (* C09  real-time safety                                                   *)
